@@ -29,6 +29,7 @@ Definition model18 (c : case18) : case18 :=
   | KWindows w1 w2 _ => KWindows w1 w2 (windows_overlap w1 w2)
   end.
 
+(* hashes: equal locations must hash equally; unequal ones may collide (CPython: hash(-1) = hash(-2)) *)
 Definition check18 (c : case18) : bool :=
   match c with
   | KOverlap a b out =>
@@ -41,7 +42,7 @@ Definition check18 (c : case18) : bool :=
       loc_eqb (loc_add a n) p && loc_eqb (loc_sub a n) m && (loc_len a =? len)
       && loc_eqb (Gen.loc_add a n) p && loc_eqb (Gen.loc_sub a n) m && (Gen.loc_len a =? len)
   | KOrder a b lt eq h ge =>
-      Bool.eqb (loc_ltb a b) lt && Bool.eqb (loc_eqb a b) eq && Bool.eqb (loc_eqb a b) h
+      Bool.eqb (loc_ltb a b) lt && Bool.eqb (loc_eqb a b) eq && implb (loc_eqb a b) h
       && Bool.eqb (loc_leb b a) ge
   | KIndices a out => list_eqb Z.eqb (loc_indices a) out
   | KTuple a t back =>
